@@ -4,7 +4,7 @@
    request id -> status, and the transition table of the class documentation. *)
 From Coq Require Import ZArith List Bool.
 From SP Require Import Base.Result Base.Bytes Model.SpacePacket Model.Verificator
-  Spec.VerificatorSpec Proofs.VerificatorBase Proofs.VerificatorProofs.
+  Spec.SpacePacketSpec Spec.VerificatorSpec Proofs.VerificatorBase Proofs.VerificatorProofs.
 Import ListNotations.
 Open Scope Z_scope.
 
@@ -127,6 +127,18 @@ Theorem C16_add_tm_errors_documented : forall d r e,
   snd (add_tm d r) = Err e -> e = EValue /\ ~ (1 <= rep_sub r <= 8) /\ fst (add_tm d r) = d.
 Proof. exact add_tm_errors_documented. Qed.
 Print Assumptions C16_add_tm_errors_documented.
+
+(* the dictionary key is the request id's 32-bit value: version | packet id | sequence control *)
+Theorem C16_key_of_hdr_arith : forall h, sph_valid h ->
+  key_of_hdr h = sph_word0 h * 65536 + sph_word1 h /\ 0 <= key_of_hdr h < 2 ^ 32.
+Proof. exact key_of_hdr_arith. Qed.
+Print Assumptions C16_key_of_hdr_arith.
+
+Theorem C16_key_of_hdr_inj : forall h1 h2, sph_valid h1 -> sph_valid h2 -> key_of_hdr h1 = key_of_hdr h2 ->
+  ver h1 = ver h2 /\ ptype h1 = ptype h2 /\ shf h1 = shf h2 /\ apid h1 = apid h2 /\
+  sflags h1 = sflags h2 /\ scount h1 = scount h2.
+Proof. exact key_of_hdr_inj. Qed.
+Print Assumptions C16_key_of_hdr_inj.
 
 (* non-vacuity: the nominal chain acceptance, start, step, completion, then removal *)
 Example C16_nominal_chain :
